@@ -114,22 +114,45 @@ Definition step_property (good : option N) (prev s : qstep) : bool :=
   | _ => optN_eqb (q_last s) (q_last prev) && (q_nvals s =? q_nvals prev)
   end.
 
+(* A reader that resolves the config path while the operation replaces the
+   link and then destroys the old target can get ENOENT although no state of
+   the file system lacks the file (it followed the old link body).  When a step
+   destroyed a config inode the model is therefore also replayed with one
+   transient not-exist read first; the walk keeps every candidate model state
+   that agrees with what the implementation showed. *)
+Definition transient_notexist (cfg : path) (st : lstate) : lstate :=
+  m_step cfg (mkFs NotExist None false false) st (IEvent cfg).
+
+Definition successors (cfg : path) (c : lstate * N) (s : qstep) : list (lstate * lstate * N) :=
+  let '(st, wino) := c in
+  let '(n1, w1) := model_step cfg st wino s in
+  match q_dead s with
+  | [] => [(st, n1, w1)]
+  | _ => let st' := transient_notexist cfg st in
+         let '(n2, w2) := model_step cfg st' wino s in
+         [(st, n1, w1); (st, n2, w2)]
+  end.
+
 (* bits: 1 = some step differs from the model, 2 = the property fails on some
    step, 4 = at the first property failure the model's watch-set invariant
    does not hold (lost watch) *)
-Fixpoint walk (cfg : path) (st : lstate) (wino : N) (good : option N) (prev : qstep)
+Fixpoint walk (cfg : path) (cands : list (lstate * N)) (good : option N) (prev : qstep)
          (steps : list qstep) : bool * bool * bool :=
   match steps with
   | [] => (false, false, false)
   | s :: r =>
-      let '(st', wino') := model_step cfg st wino s in
-      let agree := step_agrees st st' prev s in
+      let succ := flat_map (fun c => successors cfg c s) cands in
+      let ok := filter (fun x => let '(st0, st', _) := x in step_agrees st0 st' prev s) succ in
+      let agree := match ok with [] => false | _ => true end in
+      let next := map (fun x => let '(_, st', w) := x in (st', w))
+                      (match ok with [] => firstn 1 succ | _ => ok end) in
       let prop := step_property good prev s in
       let good' := match q_read s with
                    | Content c => match decode c with Some _ => Some c | None => good end
                    | _ => good end in
-      let '(mm, pf, wl) := walk cfg st' wino' good' s r in
-      (negb agree || mm, negb prop || pf, if negb prop then negb (winv cfg st') else wl)
+      let '(mm, pf, wl) := walk cfg next good' s r in
+      (negb agree || mm, negb prop || pf,
+       if negb prop then forallb (fun x => negb (winv cfg (fst x))) next else wl)
   end.
 
 (* what dials.Config's initial Source.Value() saw *)
@@ -142,17 +165,19 @@ Definition first_step (r0 : path) : qstep :=
    alone is deleted, leaving a dangling symlink.  The loop's not-exist branch
    does not follow the dangling link, so the directory in which the file is
    later re-created is never watched and the re-creation is lost.  The class
-   is a predicate on the history: a directory switch directly followed (explicit
-   reloads aside) by a target-only deletion. *)
+   is a predicate on the history: a target-only deletion while, since the last
+   switch of the target directory, the config path has remained a symlink into
+   it (only in-place writes and reloads in between). *)
 Fixpoint class2_from (armed : bool) (h : list (opkind * bool)) : bool :=
   match h with
   | [] => false
   | (o, dangling) :: r =>
       (armed && dangling) ||
       match o with
-      | OLink | OK8s => class2_from true r
-      | OReload => class2_from armed r
-      | _ => class2_from false r
+      | OLink | OK8s => class2_from true r                   (* the target directory changes *)
+      | ORename => class2_from false r                       (* a regular file in the config's own directory *)
+      | ODelete => class2_from (armed && dangling) r         (* the link itself removed: disarmed *)
+      | _ => class2_from armed r                             (* in-place writes, reloads *)
       end
   end.
 (* the start-up layout may itself have been a fresh switch *)
@@ -166,7 +191,7 @@ Definition check (c : c17case) : N :=
   match c with
   | Quiescent cfg r0 ino0 steps =>
       let st0 := m_init cfg 0 0 r0 in
-      let '(mm, pf, wl) := walk cfg st0 ino0 (Some 0) (first_step r0) steps in
+      let '(mm, pf, wl) := walk cfg [(st0, ino0)] (Some 0) (first_step r0) steps in
       if pf then (if negb mm && wl then 11 else 3)
       else if mm then 1 else 0
   | Racing hist final v lasterr dup ok =>
